@@ -1,5 +1,6 @@
 (* C03 — a task resumes only when all it awaits is done; start order; exactly once per yield.
-   Statements only; proofs in proofs/ProgProofs.v, proofs/MachineC02.v, proofs/MachineSteps.v and proofs/MachineC02S.v.
+   Statements only; proofs in proofs/ProgProofs.v, proofs/MachineC02.v, proofs/MachineSteps.v, proofs/MachineC02S.v and
+   proofs/MachineC03T.v.
    Proved: (1) the dependencies derived from a yielded structure are exactly its futures, in reverse
    written order for list/tuple structures (with the LIFO task stack: tasks first scheduled together
    start in the order written); (2) on the machine, for tree programs, the scheduler resumes a task
@@ -26,10 +27,28 @@
    is followed by another one finished (C03_no_step_after_done_stree_history; C03_stree_clean_history: such a
    history exists).  The nested scheduler loops of synchronous calls never resume a suspended caller: they only
    work on tasks at least as young as their wait_for root.
-   NOT proved (correspondence, monitors and the watchdog only): that a yield IS eventually resumed
-   (liveness / termination), never-started for never-awaited tasks, no-step-after-done for programs outside
-   stree (stored handles, value() on existing futures) without the guard hypothesis, and after a computation
-   that was cut off by the fuel or by the runaway guard. *)
+   (6) LIVENESS, partial (proofs/MachineC03T.v; tree programs, pointwise service, one root computation from the
+   initial state): (a) a resumed task returns control to the scheduler: from a configuration MResume t the body of
+   t runs for finitely many steps (through the yields that add no dependency) and reaches MContRet without
+   unwinding (C03_resumed_task_returns_to_scheduler); (b) the FIRST _execute pass terminates: if the runaway guard
+   never fires (hypothesis "forall n, no_unwind P n start", i.e. MAX_TASK_STACK_SIZE is large enough for the
+   program), the machine reaches MAfterExec with an empty task stack - so every yield whose dependencies are
+   all computed within the first pass IS resumed (C03_first_pass_terminates_tree; structural induction over the
+   HOAS program: every task started in the pass is popped after finitely many steps, computed or stuck);
+   (c) TERMINATION when no flush is needed: if moreover no pass ends with the awaited task uncomputed, there
+   are a fuel n and an outcome o with mode MDone o at n, and o = Seq.eval p (C03_terminates_without_flush_tree);
+   C03_termination_demos: both hypotheses hold for a concrete program with nested tasks, and c01_demo (which
+   needs flushes) ends its first pass after 17 steps and is done within 41.
+   NOT proved (correspondence, monitors and the watchdog only): TERMINATION IN GENERAL - that for every tree
+   program there is a fuel at which the run is done.  Missing: (i) a flush at the end of a pass makes progress
+   (the stuck set of MachineC04B contains an item of a scheduled pending batch: needs acyclicity of the
+   dependency lists, e.g. "dependencies have larger ids"), (ii) the LATER passes terminate (their stack entries
+   are suspended tasks rather than fresh ones; the induction of (b) is over the program of a freshly started
+   task), (iii) a measure bounding the number of passes (the remaining cost along the actual path, which is a
+   natural number because the outcomes are determined by Seq.eval), and (iv) a syntactic criterion for the
+   no-flush hypothesis of (c) (e.g. no FItem leaf).  Also not proved: never-started for never-awaited tasks,
+   no-step-after-done for programs outside stree (stored handles, value() on existing futures) without the
+   guard hypothesis, and after a computation that was cut off by the fuel or by the runaway guard. *)
 From Asynq Require Import Machine Seq proofs.ProgProofs proofs.MachineC08 proofs.MachineC01 proofs.MachineC02
   proofs.MachineSteps.
 
@@ -149,3 +168,64 @@ Example C03_stree_clean_history :
    EvStep [6] 1 (Err 42); EvDone [6] (Err 42)].
 Proof. exact c02s_history_clean. Qed.
 Print Assumptions C03_stree_clean_history.
+
+(* ==== liveness fragments (proofs/MachineC03T.v) ==== *)
+From Asynq Require Import proofs.MachineC03T.
+
+(* once the scheduler resumes a task (mode MResume t), the body of t runs for finitely many steps - through
+   the yields that add no dependency - and control returns to the scheduler loop (MContRet), without
+   unwinding; seg_mode t m = true iff m is MResume t or MRun t _ *)
+Theorem C03_resumed_task_returns_to_scheduler : forall P p n t,
+  pointwise P -> tree p ->
+  let h := fst (create [] (FTask p) (st0 P)) in
+  let s1 := snd (create [] (FTask p) (st0 P)) in
+  no_unwind P n (start h s1) -> c_mode (run P n (start h s1)) = MResume t ->
+  exists m, c_mode (run P (n + m) (start h s1)) = MContRet /\ no_unwind P (n + m) (start h s1) /\
+    forall j, (j < m)%nat -> seg_mode t (c_mode (run P (n + j) (start h s1))) = true.
+Proof. exact resumed_returns_tree. Qed.
+Print Assumptions C03_resumed_task_returns_to_scheduler.
+
+(* the FIRST _execute pass of the computation terminates: from the initial state the machine reaches the point
+   where wait_for gets control back (MAfterExec) with an empty task stack - every task reachable from the root
+   has been started and has run until it completed or got stuck.  Hypothesis on MAX_TASK_STACK_SIZE, explicit:
+   the runaway guard never fires (no configuration of the run is unwinding). *)
+Theorem C03_first_pass_terminates_tree : forall P p,
+  pointwise P -> tree p ->
+  let h := fst (create [] (FTask p) (st0 P)) in
+  let s1 := snd (create [] (FTask p) (st0 P)) in
+  (forall n, no_unwind P n (start h s1)) ->
+  exists n, c_mode (run P n (start h s1)) = MAfterExec /\ tasks (c_st (run P n (start h s1))) = [].
+Proof. exact first_pass_terminates_tree. Qed.
+Print Assumptions C03_first_pass_terminates_tree.
+
+(* TERMINATION when no batch flush is needed: if no pass ends with the awaited task uncomputed, there is a fuel
+   at which the computation is done, and its outcome is the sequential one *)
+Theorem C03_terminates_without_flush_tree : forall P p,
+  pointwise P -> tree p ->
+  let h := fst (create [] (FTask p) (st0 P)) in
+  let s1 := snd (create [] (FTask p) (st0 P)) in
+  (forall n, no_unwind P n (start h s1)) ->
+  (forall n, c_mode (run P n (start h s1)) = MAfterExec -> computed h (c_st (run P n (start h s1))) = true) ->
+  exists n o, c_mode (run P n (start h s1)) = MDone o /\ o = eval p.
+Proof. exact terminates_without_flush_tree. Qed.
+Print Assumptions C03_terminates_without_flush_tree.
+
+(* non-vacuity: c01_demo ends its first pass after 17 steps with the root uncomputed and is done within 41 steps;
+   c03t_demo (nested tasks, a lazy future, constants, no batch item) never ends a pass with the root
+   uncomputed, does not unwind, and is done within 36 steps *)
+Theorem C03_termination_demos :
+  tree c03t_demo /\
+  let P := mkP [] 1000 false [] in
+  (let h := fst (create [] (FTask c01_demo) (st0 P)) in
+   let s1 := snd (create [] (FTask c01_demo) (st0 P)) in
+   c_mode (run P 17 (start h s1)) = MAfterExec /\ computed h (c_st (run P 17 (start h s1))) = false /\
+   c_mode (run P 41 (start h s1)) = MDone (eval c01_demo)) /\
+  (let h := fst (create [] (FTask c03t_demo) (st0 P)) in
+   let s1 := snd (create [] (FTask c03t_demo) (st0 P)) in
+   no_unwind_b P 100 (start h s1) = true /\
+   forallb (fun n => match c_mode (run P n (start h s1)) with
+                     | MAfterExec => computed h (c_st (run P n (start h s1))) | _ => true end) (seq 0 100) = true /\
+   c_mode (run P 36 (start h s1)) = MDone (Ok (VTuple [VTuple [VInt 7; VInt 1]; VInt 9; VInt 3])) /\
+   eval c03t_demo = Ok (VTuple [VTuple [VInt 7; VInt 1]; VInt 9; VInt 3])).
+Proof. exact (conj c03t_demo_tree c03t_demo_runs). Qed.
+Print Assumptions C03_termination_demos.
